@@ -6,6 +6,7 @@ import (
 	"go/token"
 	"go/types"
 	"math"
+	"regexp"
 	"strings"
 
 	"golang.org/x/tools/go/ssa"
@@ -1447,5 +1448,614 @@ func runARGPOS(c *Ctx, r *Result, rule string) int {
 			r.Add(o)
 		}
 	}
+	return n
+}
+
+// ---------------------------------------------------------------------------------------
+// OPTALL (C08, C09): the optimised tree contains optimised nodes only.
+//
+// eval has no case for the parser's interim node types (dotNode, predicateNode,
+// singletonArrayNode): TAB shows their own optimize methods never return the receiver, which is
+// only enough if every child that is put into the optimised tree went through optimize() too. A
+// child taken from the receiver as it was parsed and stored or returned unoptimised (`append(…,
+// n.rhs)` instead of `append(…, rhs)`) makes Eval panic with "unexpected node type". Rule, in
+// every optimize method of jparse: a node value read from a field of the receiver (or an element
+// of such a field) that has not been replaced by the result of an optimize() call is "raw"; raw
+// values may be inspected and have optimize() called on them, but are never stored into a node,
+// appended to a node list, or returned.
+// ---------------------------------------------------------------------------------------
+
+func runOPTALL(c *Ctx, r *Result, rule string) int {
+	pkg := c.W.LibSSA["jparse"]
+	if pkg == nil {
+		r.LoseAnchor("OPTALL: package jparse not loaded")
+		return 0
+	}
+	var nodeIface *types.Interface
+	if tn, ok := pkg.Pkg.Scope().Lookup("Node").(*types.TypeName); ok {
+		nodeIface, _ = tn.Type().Underlying().(*types.Interface)
+	}
+	if nodeIface == nil {
+		r.LoseAnchor("OPTALL: interface jparse.Node not found")
+		return 0
+	}
+	var isNodeT func(t types.Type, depth int) bool
+	isNodeT = func(t types.Type, depth int) bool {
+		if depth > 3 {
+			return false
+		}
+		switch u := t.Underlying().(type) {
+		case *types.Interface:
+			return types.Identical(u, nodeIface)
+		case *types.Slice:
+			return isNodeT(u.Elem(), depth+1)
+		case *types.Array:
+			return isNodeT(u.Elem(), depth+1)
+		case *types.Pointer:
+			return types.Implements(t, nodeIface) && !types.IsInterface(u.Elem())
+		}
+		return false
+	}
+	n := 0
+	for _, f := range c.G.Funcs {
+		if f.Pkg != pkg || f.Name() != "optimize" || f.Signature.Recv() == nil || len(f.Blocks) == 0 || len(f.Params) == 0 {
+			continue
+		}
+		recv := f.Params[0]
+		// stores of optimised values into receiver fields: field index -> stores
+		type fstore struct {
+			st  *ssa.Store
+			fld int
+		}
+		var fstores []fstore
+		raw := map[ssa.Value]bool{}
+		isOptimizeCall := func(v ssa.Value) bool {
+			switch x := v.(type) {
+			case *ssa.Extract:
+				if call, ok := x.Tuple.(*ssa.Call); ok && x.Index == 0 {
+					if call.Call.IsInvoke() {
+						return call.Call.Method.Name() == "optimize"
+					}
+					if callee := call.Call.StaticCallee(); callee != nil {
+						return callee.Name() == "optimize" || callee.Name() == "optimizeNodes"
+					}
+				}
+			}
+			return false
+		}
+		instrs := instrsIn(f)
+		for _, ins := range instrs {
+			if st, ok := ins.(*ssa.Store); ok {
+				if fa, ok := st.Addr.(*ssa.FieldAddr); ok && fa.X == ssa.Value(recv) {
+					fstores = append(fstores, fstore{st, fa.Field})
+				}
+			}
+		}
+		// fixpoint over raw-ness
+		for changed := true; changed; {
+			changed = false
+			mark := func(v ssa.Value) {
+				if !raw[v] {
+					raw[v] = true
+					changed = true
+				}
+			}
+			for _, ins := range instrs {
+				v, ok := ins.(ssa.Value)
+				if !ok || raw[v] {
+					continue
+				}
+				switch x := ins.(type) {
+				case *ssa.UnOp:
+					if x.Op != token.MUL || !isNodeT(x.Type(), 0) {
+						continue
+					}
+					switch a := x.X.(type) {
+					case *ssa.FieldAddr:
+						if a.X != ssa.Value(recv) {
+							continue
+						}
+						// replaced earlier by an optimised value?
+						replaced := false
+						for _, fs := range fstores {
+							if fs.fld == a.Field && !raw[fs.st.Val] && instrBefore(fs.st, x) {
+								replaced = true
+							}
+						}
+						if !replaced {
+							mark(x)
+						}
+					case *ssa.IndexAddr:
+						if raw[a.X] {
+							// an element of a raw list: raw unless that element was replaced earlier
+							replaced := false
+							for _, i2 := range instrs {
+								if st, ok := i2.(*ssa.Store); ok && !raw[st.Val] && instrBefore(st, x) {
+									if ia2, ok := st.Addr.(*ssa.IndexAddr); ok && ia2.X == a.X && ia2.Index == a.Index {
+										replaced = true
+									}
+								}
+							}
+							if !replaced {
+								mark(x)
+							}
+						}
+					}
+				case *ssa.Phi:
+					for _, e := range x.Edges {
+						if raw[e] {
+							mark(x)
+						}
+					}
+				case *ssa.TypeAssert:
+					if raw[x.X] && isNodeT(x.Type(), 0) {
+						mark(x)
+					}
+				case *ssa.Extract:
+					if ta, ok := x.Tuple.(*ssa.TypeAssert); ok && x.Index == 0 && raw[ta.X] && isNodeT(x.Type(), 0) {
+						mark(x)
+					}
+				case *ssa.MakeInterface:
+					if raw[x.X] {
+						mark(x)
+					}
+				case *ssa.ChangeInterface:
+					if raw[x.X] {
+						mark(x)
+					}
+				case *ssa.Slice:
+					if raw[x.X] {
+						mark(x)
+					}
+				case *ssa.Call:
+					if bi, ok := x.Call.Value.(*ssa.Builtin); ok && bi.Name() == "append" && isNodeT(x.Type(), 0) {
+						if raw[x.Call.Args[0]] {
+							mark(x)
+						}
+						for _, e := range variadicElems(x.Call.Args[1]) {
+							if raw[e] {
+								mark(x)
+							}
+						}
+						if len(x.Call.Args) > 1 && raw[x.Call.Args[1]] {
+							mark(x)
+						}
+					}
+				}
+			}
+		}
+		_ = isOptimizeCall
+		ord := 0
+		report := func(ins ssa.Instruction, what string, v ssa.Value) {
+			ord++
+			n++
+			o := Obligation{Rule: rule, Key: fmt.Sprintf("%s:%s#%d", shortFn(f), what, ord), Fn: shortFn(f), Pos: c.W.Pos(ins.Pos()), Nontrivial: true}
+			if raw[v] {
+				o.Verdict, o.Reason = Finding, "a child node taken from the receiver as it was parsed ("+describeVal(v)+") is "+map[string]string{"store": "stored into the optimised tree", "return": "returned as the optimised node"}[what]+" without having gone through optimize(): an interim node type can reach Eval, which has no case for it"
+			} else {
+				o.Verdict, o.Reason = Discharged, "only optimised children (results of optimize(), or nodes built here from them) are put into the tree"
+			}
+			r.Add(o)
+		}
+		for _, ins := range instrs {
+			switch x := ins.(type) {
+			case *ssa.Store:
+				if !isNodeT(x.Val.Type(), 0) {
+					continue
+				}
+				if _, isAlloc := x.Addr.(*ssa.Alloc); isAlloc {
+					continue // a local variable
+				}
+				// writing a field's own value back is no change
+				if ld, ok := x.Val.(*ssa.UnOp); ok && ld.Op == token.MUL && ld.X == x.Addr {
+					continue
+				}
+				report(x, "store", x.Val)
+			case *ssa.Return:
+				if len(x.Results) == 2 && isSuccessReturn(x) {
+					report(x, "return", x.Results[0])
+				}
+			}
+		}
+	}
+	return n
+}
+
+// ---------------------------------------------------------------------------------------
+// ESCSKIP (C11): inside a string literal the rune after a backslash is skipped.
+//
+// A JSON text such as "\"" or "\\" is a string literal only if the scanner does not take the
+// quote (or the second backslash) after a backslash for a delimiter. Rule, in scanString: the
+// rune read by nextRune is compared with '\\', and on the true edge of that comparison every
+// path back to the read passes another nextRune call (the escaped rune is consumed, whatever it
+// is). A scanner that no longer works rune by rune is reported as not decided.
+// ---------------------------------------------------------------------------------------
+
+func runESCSKIP(c *Ctx, r *Result, rule string) int {
+	f := c.mustFn(r, "jparse.(*lexer).scanString")
+	next := c.mustFn(r, "jparse.(*lexer).nextRune")
+	if f == nil || next == nil {
+		return 0
+	}
+	isNext := func(v ssa.Value) bool {
+		call, ok := v.(*ssa.Call)
+		return ok && call.Call.StaticCallee() == next
+	}
+	hasNext := func(b *ssa.BasicBlock, except ssa.Value) bool {
+		for _, ins := range b.Instrs {
+			if v, ok := ins.(ssa.Value); ok && isNext(v) && v != except {
+				return true
+			}
+		}
+		return false
+	}
+	n := 0
+	// the scan loop may live in a method scanString calls
+	var blocks []*ssa.BasicBlock
+	blocks = append(blocks, f.Blocks...)
+	for _, ci := range callsIn(f) {
+		if g := ci.Common().StaticCallee(); g != nil && g != next && g.Pkg == f.Pkg && g.Signature.Recv() != nil && len(g.Blocks) > 0 {
+			blocks = append(blocks, g.Blocks...)
+		}
+	}
+	for _, hb := range blocks {
+		iff, ok := hb.Instrs[len(hb.Instrs)-1].(*ssa.If)
+		if !ok {
+			continue
+		}
+		bo, ok := iff.Cond.(*ssa.BinOp)
+		if !ok || (bo.Op != token.EQL && bo.Op != token.NEQ) {
+			continue
+		}
+		var read ssa.Value
+		for _, pr := range [][2]ssa.Value{{bo.X, bo.Y}, {bo.Y, bo.X}} {
+			if k, isK := intConstOf(pr[1]); isK && k == '\\' && isNext(pr[0]) {
+				read = pr[0]
+			}
+		}
+		if read == nil {
+			continue
+		}
+		n++
+		o := Obligation{Rule: rule, Key: fmt.Sprintf("scanString:escape#%d", n), Fn: shortFn(f), Pos: c.W.Pos(bo.Pos()), Nontrivial: true}
+		esc := hb.Succs[0]
+		if bo.Op == token.NEQ {
+			esc = hb.Succs[1]
+		}
+		home := read.(ssa.Instruction).Block()
+		seen := map[*ssa.BasicBlock]bool{}
+		var unskipped func(b *ssa.BasicBlock) bool
+		unskipped = func(b *ssa.BasicBlock) bool {
+			if seen[b] {
+				return false
+			}
+			seen[b] = true
+			if hasNext(b, read) {
+				return false
+			}
+			if b == home {
+				return true
+			}
+			for _, s := range b.Succs {
+				if unskipped(s) {
+					return true
+				}
+			}
+			return false
+		}
+		if unskipped(esc) {
+			o.Verdict, o.Reason = Finding, "after a backslash the scanner can go back to reading the next rune without having consumed the escaped one: an escaped quote or backslash is taken for a delimiter"
+		} else {
+			o.Verdict, o.Reason = Discharged, "after a backslash the next rune is consumed before the scan continues"
+		}
+		r.Add(o)
+	}
+	if n == 0 {
+		r.Add(Obligation{Rule: rule, Key: "scanString:escape", Fn: shortFn(f), Pos: c.W.Pos(f.Pos()), Nontrivial: true, Verdict: Undecided,
+			Reason: "scanString does not compare the rune it reads with the escape character: how it finds the end of a literal that contains escaped quotes is not decided by this rule"})
+		n++
+	}
+	return n
+}
+
+// ---------------------------------------------------------------------------------------
+// NUMGATE (C18): what $number accepts is decided by the reviewed regular expression.
+//
+// strconv.ParseFloat accepts far more than the property allows ("1.", ".5", "0x10", "1_0",
+// "Inf", "+1"), so jlib.Number gates it with a regular expression. Rule: every ParseFloat call
+// in jlib.Number is dominated by the true edge of MatchString on a package-level pattern applied
+// to the same string, and the pattern — read from the package initialiser and compiled by the
+// checker itself — accepts and rejects a battery of strings written from the property's grammar
+// (optional minus, digits, optional fraction with at least one digit, optional exponent with at
+// least one digit). A gate of another kind is reported as not decided.
+// ---------------------------------------------------------------------------------------
+
+var numgateAccept = []string{"0", "-0", "7", "12", "-12", "1.5", "-1.5", "0.25", "1e5", "1E5", "1e+5", "1e-5", "1.5e10", "-1.5E-10", "12345678901234567890"}
+var numgateReject = []string{"", "-", "+1", "1.", ".5", "-.5", "1e", "1e+", "1e-", "e5", "1.e3", " 1", "1 ", "0x10", "1_0", "NaN", "Inf", "Infinity", "--1", "1.2.3", "1e5.5", "1e5e5", "١", "1,5", "true"}
+
+func runNUMGATE(c *Ctx, r *Result, rule string) int {
+	f := c.mustFn(r, "jlib.Number")
+	if f == nil {
+		return 0
+	}
+	patternOf := func(g *ssa.Global) (string, bool) {
+		init := g.Pkg.Func("init")
+		if init == nil {
+			return "", false
+		}
+		for _, ins := range instrsIn(init) {
+			st, ok := ins.(*ssa.Store)
+			if !ok || st.Addr != ssa.Value(g) {
+				continue
+			}
+			call, ok := st.Val.(*ssa.Call)
+			if !ok || (staticName(call) != "regexp.MustCompile" && staticName(call) != "regexp.MustCompilePOSIX") {
+				return "", false
+			}
+			k, ok := call.Call.Args[0].(*ssa.Const)
+			if !ok || k.Value == nil || k.Value.Kind() != constant.String {
+				return "", false
+			}
+			return constant.StringVal(k.Value), true
+		}
+		return "", false
+	}
+	n := 0
+	for _, ins := range instrsIn(f) {
+		call, ok := ins.(*ssa.Call)
+		if !ok || staticName(call) != "strconv.ParseFloat" {
+			continue
+		}
+		n++
+		o := Obligation{Rule: rule, Key: fmt.Sprintf("jlib.Number:ParseFloat#%d", n), Fn: shortFn(f), Pos: c.W.Pos(call.Pos()), Nontrivial: true}
+		s := call.Call.Args[0]
+		pattern, found := "", false
+		domGuard(call.Block(), func(cond ssa.Value) (int, bool) {
+			m, ok := cond.(*ssa.Call)
+			if !ok || staticName(m) != "*regexp.Regexp.MatchString" || len(m.Call.Args) != 2 || m.Call.Args[1] != s {
+				return 0, false
+			}
+			if ld, ok := m.Call.Args[0].(*ssa.UnOp); ok && ld.Op == token.MUL {
+				if g, ok := ld.X.(*ssa.Global); ok {
+					if p, ok := patternOf(g); ok {
+						pattern, found = p, true
+						return 0, true
+					}
+				}
+			}
+			return 0, false
+		})
+		if !found {
+			// `ok && re.MatchString(s)`: the call sits in the block that the ok-test leads to
+			for d := call.Block(); d != nil && !found; d = d.Idom() {
+				if len(d.Preds) != 1 {
+					continue
+				}
+				pr := d.Preds[0]
+				iff, isIf := pr.Instrs[len(pr.Instrs)-1].(*ssa.If)
+				if !isIf || pr.Succs[0] != d {
+					continue
+				}
+				if m, ok := iff.Cond.(*ssa.Call); ok && staticName(m) == "*regexp.Regexp.MatchString" && len(m.Call.Args) == 2 && m.Call.Args[1] == s {
+					if ld, ok := m.Call.Args[0].(*ssa.UnOp); ok && ld.Op == token.MUL {
+						if g, ok := ld.X.(*ssa.Global); ok {
+							if p, ok := patternOf(g); ok {
+								pattern, found = p, true
+							}
+						}
+					}
+				}
+			}
+		}
+		switch {
+		case !found:
+			o.Verdict, o.Reason = Undecided, "strconv.ParseFloat in $number is not gated by MatchString of a package-level regular expression on the same string: which strings $number accepts is not decided by this rule (ParseFloat alone accepts \"1.\", \".5\", \"0x10\", \"Inf\")"
+		default:
+			re, err := regexp.Compile(pattern)
+			if err != nil {
+				o.Verdict, o.Reason = Finding, "the number pattern does not compile: "+err.Error()
+				break
+			}
+			bad := ""
+			for _, a := range numgateAccept {
+				if !re.MatchString(a) {
+					bad = fmt.Sprintf("rejects %q", a)
+				}
+			}
+			for _, x := range numgateReject {
+				if re.MatchString(x) {
+					bad = fmt.Sprintf("accepts %q", x)
+				}
+			}
+			if bad == "" {
+				o.Verdict, o.Reason = Discharged, fmt.Sprintf("gated by the pattern %s, which accepts the %d well-formed and rejects the %d malformed strings of the battery", pattern, len(numgateAccept), len(numgateReject))
+			} else {
+				o.Verdict, o.Reason = Finding, "the pattern "+pattern+" that gates $number "+bad+", against the number grammar of the property"
+			}
+		}
+		r.Add(o)
+	}
+	return n
+}
+
+// ---------------------------------------------------------------------------------------
+// MISSLAST (C13): items without the key sort after all items that have it.
+//
+// In the order-by comparator less(i, j): when the key of item i is absent (and that of j is
+// not) the answer is false, when the key of item j is absent the answer is true — whatever the
+// direction of the term. Rule: in every func(int, int) bool closure of the evaluator that tests a
+// value reached through its first (second) parameter against `undefined` and returns a constant
+// on the true edge of that test, the constant is false (true).
+// ---------------------------------------------------------------------------------------
+
+func runMISSLAST(c *Ctx, r *Result, rule string) int {
+	mk := c.mustFn(r, "jsonata.makeLessFunc")
+	if mk == nil {
+		return 0
+	}
+	n := 0
+	for _, f := range mk.AnonFuncs {
+		if len(f.Params) != 2 || !isIntType(f.Params[0].Type()) || !isIntType(f.Params[1].Type()) {
+			continue
+		}
+		// which parameter does the value come from (info[i].values[t] -> i)?
+		var from func(v ssa.Value, depth int) int
+		from = func(v ssa.Value, depth int) int {
+			if depth > 10 {
+				return -1
+			}
+			switch x := v.(type) {
+			case *ssa.UnOp:
+				return from(x.X, depth+1)
+			case *ssa.FieldAddr:
+				return from(x.X, depth+1)
+			case *ssa.Field:
+				return from(x.X, depth+1)
+			case *ssa.IndexAddr:
+				for i, p := range f.Params {
+					if x.Index == ssa.Value(p) {
+						return i
+					}
+				}
+				return from(x.X, depth+1)
+			case *ssa.Index:
+				for i, p := range f.Params {
+					if x.Index == ssa.Value(p) {
+						return i
+					}
+				}
+				return from(x.X, depth+1)
+			}
+			return -1
+		}
+		for _, hb := range f.Blocks {
+			iff, ok := hb.Instrs[len(hb.Instrs)-1].(*ssa.If)
+			if !ok {
+				continue
+			}
+			bo, ok := iff.Cond.(*ssa.BinOp)
+			if !ok || bo.Op != token.EQL {
+				continue
+			}
+			var x ssa.Value
+			switch {
+			case isUndefinedLoad(bo.Y) || isZeroValueConst(bo.Y):
+				x = bo.X
+			case isUndefinedLoad(bo.X) || isZeroValueConst(bo.X):
+				x = bo.Y
+			default:
+				continue
+			}
+			who := from(x, 0)
+			if who < 0 {
+				continue
+			}
+			t := hb.Succs[0]
+			ret, ok := t.Instrs[len(t.Instrs)-1].(*ssa.Return)
+			if !ok || len(t.Instrs) != 1 || len(ret.Results) != 1 {
+				continue
+			}
+			k, ok := ret.Results[0].(*ssa.Const)
+			if !ok || k.Value == nil || k.Value.Kind() != constant.Bool {
+				continue
+			}
+			n++
+			o := Obligation{Rule: rule, Key: fmt.Sprintf("%s:missing-key#%d", shortFn(f), n), Fn: shortFn(f), Pos: c.W.Pos(ret.Pos()), Nontrivial: true}
+			got := constant.BoolVal(k.Value)
+			want := who == 1 // key of j missing: i sorts first
+			if got == want {
+				o.Verdict, o.Reason = Discharged, fmt.Sprintf("when the key of the %s item is absent the comparator answers %v: items without the key go last", []string{"first", "second"}[who], got)
+			} else {
+				o.Verdict, o.Reason = Finding, fmt.Sprintf("when the key of the %s item is absent the comparator answers %v: items without the key sort before the others", []string{"first", "second"}[who], got)
+			}
+			r.Add(o)
+		}
+	}
+	return n
+}
+
+// ---------------------------------------------------------------------------------------
+// PARENS (C01, C04): parentheses are opaque to the tree builder.
+//
+// A parenthesised sub-expression is one step of a path, evaluated once per context item in a
+// scope of its own; `(a.b).c`, `a.(b.[c])` and `($$.a).b` differ from their flattened forms
+// exactly where the evaluator treats first steps, constructor steps and [] specially. Rule
+// (who-may-read): inside jparse the contents of a BlockNode (field Exprs) are read only by
+// BlockNode's own methods; no optimize method or helper looks inside a block to splice its
+// contents into the enclosing node.
+// ---------------------------------------------------------------------------------------
+
+func runPARENS(c *Ctx, r *Result, rule string) int {
+	pkg := c.W.LibSSA["jparse"]
+	if pkg == nil {
+		r.LoseAnchor("PARENS: package jparse not loaded")
+		return 0
+	}
+	var blockT types.Type
+	if tn, ok := pkg.Pkg.Scope().Lookup("BlockNode").(*types.TypeName); ok {
+		blockT = tn.Type()
+	}
+	if blockT == nil {
+		r.LoseAnchor("PARENS: type BlockNode not found")
+		return 0
+	}
+	n := 0
+	own := 0
+	for _, f := range c.G.Funcs {
+		if f.Pkg != pkg || len(f.Blocks) == 0 {
+			continue
+		}
+		isOwn := false
+		if rv := f.Signature.Recv(); rv != nil {
+			t := rv.Type()
+			if p, ok := t.(*types.Pointer); ok {
+				t = p.Elem()
+			}
+			isOwn = types.Identical(t, blockT)
+		}
+		ord := 0
+		for _, ins := range instrsIn(f) {
+			var base ssa.Value
+			fld := -1
+			switch x := ins.(type) {
+			case *ssa.FieldAddr:
+				base, fld = x.X, x.Field
+			case *ssa.Field:
+				base, fld = x.X, x.Field
+			default:
+				continue
+			}
+			t := base.Type()
+			if p, ok := t.Underlying().(*types.Pointer); ok {
+				t = p.Elem()
+			}
+			if !types.Identical(t, blockT) {
+				continue
+			}
+			if st, ok := blockT.Underlying().(*types.Struct); !ok || st.Field(fld).Name() != "Exprs" {
+				continue
+			}
+			if isOwn {
+				own++
+				continue
+			}
+			// the constructor fills the field of the node it has just allocated
+			if _, fresh := base.(*ssa.Alloc); fresh {
+				continue
+			}
+			ord++
+			n++
+			r.Add(Obligation{Rule: rule, Key: fmt.Sprintf("%s:reads-block#%d", shortFn(f), ord), Fn: shortFn(f), Pos: c.W.Pos(ins.Pos()), Nontrivial: true, Verdict: Finding,
+				Reason: "the contents of a parenthesised block are read outside BlockNode's own methods: splicing them into the enclosing node changes what a path step, a first step or a constructor step is"})
+		}
+	}
+	n++
+	o := Obligation{Rule: rule, Key: "jparse:block-contents-private", Fn: "jparse.BlockNode", Pos: "jparse/node.go", Nontrivial: true}
+	if own == 0 {
+		o.Verdict, o.Reason = Undecided, "BlockNode's own methods do not read its Exprs field: the representation of blocks changed"
+	} else {
+		o.Verdict, o.Reason = Discharged, fmt.Sprintf("BlockNode.Exprs is read at %d places, all in BlockNode's own methods (optimize, String)", own)
+	}
+	r.Add(o)
 	return n
 }
